@@ -124,6 +124,12 @@ NonAscii(s) == \E i \in 1..Len(s) : s[i] >= 128
 HAdd(h, k, v) == IF \E i \in 1..Len(h) : h[i].n = k
                  THEN [i \in 1..Len(h) |-> IF h[i].n = k THEN [n |-> k, vs |-> Append(h[i].vs, v)] ELSE h[i]]
                  ELSE Append(h, [n |-> k, vs |-> <<v>>])
+\* net/textproto.CanonicalMIMEHeaderKey: a name made only of token characters gets its first letter and every
+\* letter after "-" upper-cased, the rest lower-cased; any other name is left as it is
+IsTokenByte(c) == IsAlpha(c) \/ IsDigit(c) \/ c \in {33, 35, 36, 37, 38, 39, 42, 43, 45, 46, 94, 95, 96, 124, 126}
+UpperC(c) == IF IsLower(c) THEN c - 32 ELSE c
+CanonKey(k) == IF k = <<>> \/ \E i \in 1..Len(k) : ~IsTokenByte(k[i]) THEN k
+               ELSE [i \in 1..Len(k) |-> IF i = 1 \/ k[i - 1] = 45 THEN UpperC(k[i]) ELSE LowerC(k[i])]
 \* a small non-negative decimal without sign: the only status spellings this module decides
 StatusVal(v) == IF Len(v) \in 1..9 /\ \A i \in 1..Len(v) : IsDigit(v[i]) THEN SmallVal(DecToU64(v).v) ELSE -1
 \* classification of a fallback / :url value: "ok" = plainly an absolute https URL of the generated
@@ -152,7 +158,7 @@ FoldReq(es, i, x, ver) ==     \* x accumulates method / uri / reqh ; returns [re
             (IF ver # "1b1" THEN [res |-> "err", x |-> x]
              ELSE IF UrlClass(v) = "ok" THEN FoldReq(es, i + 1, [x EXCEPT !.uri = v], ver)
              ELSE [res |-> UrlClass(v), x |-> x])
-       ELSE FoldReq(es, i + 1, [x EXCEPT !.reqh = HAdd(x.reqh, k, v)], ver)
+       ELSE FoldReq(es, i + 1, [x EXCEPT !.reqh = HAdd(x.reqh, CanonKey(k), v)], ver)
 RECURSIVE FoldResp(_, _, _)
 FoldResp(es, i, x) ==
   IF i > Len(es) THEN [res |-> "ok", x |-> x]
@@ -160,7 +166,7 @@ FoldResp(es, i, x) ==
        IF NonAscii(k) THEN [res |-> "either", x |-> x]
        ELSE IF HasUpperAscii(k) THEN [res |-> "err", x |-> x]
        ELSE IF k = S_status THEN (IF StatusVal(v) >= 0 THEN FoldResp(es, i + 1, [x EXCEPT !.status = StatusVal(v)]) ELSE [res |-> "either", x |-> x])
-       ELSE FoldResp(es, i + 1, [x EXCEPT !.resph = HAdd(x.resph, k, v)])
+       ELSE FoldResp(es, i + 1, [x EXCEPT !.resph = HAdd(x.resph, CanonKey(k), v)])
 
 ReadHeaders(hb, x0) ==      \* hb = the header block
   IF HasRequestMap(x0)
